@@ -27,13 +27,16 @@ LEVEL_TEXT = (
 TECHNIQUE = 'fault injection: every k-th invocation of every user callback; refusal histories biased to invalid arguments'
 RULE = (
     "part refusals: op histories biased to documented-invalid arguments (uniqueness collisions by every route, "
-    "`before` node that is not a child of the target, move into the own branch / across trees / in typed trees, "
+    "`before` node that is not a child of the target - also a stale reference to a node that has left the tree, "
+    "used below its former parent after that parent got new children -, move into the own branch / across trees / in typed trees, "
     "set_data on clones without decision, copy_to(add_self=False) of a leaf, del of absent/ambiguous keys); oracle: "
     "if the call raises, the full observation (node identity, data, ids, kinds, meta, order) AND the index probes "
     "(count, count_unique, find_all per id, find_first(node_id)) equal those taken before the call. part faults: for "
     "each of ~30 operations that take a user callback (calc_data_id, predicate, mapper, sort key, visitor, repr) the "
     "k-th invocation raises, for every k <= K; oracle: C01 walker invariants, C02 index exactness and C03 sibling "
-    "uniqueness hold afterwards and read-only operations leave the observation unchanged. Non-trivial: refusal on a "
+    "uniqueness hold afterwards and read-only operations leave the observation unchanged (also with the library's "
+    "own DictWrapper.serialize_mapper as the failing mapper of save()/to_dict_list() on DictWrapper trees, with "
+    "key/value maps that name keys of the wrapped dicts: the dict contents are part of the observation). Non-trivial: refusal on a "
     "tree with >= 3 nodes / fault with 1 < k <= K; distinct = distinct case."
 )
 ASSUMPTIONS = [
@@ -409,7 +412,58 @@ def run_faults(case, rec):
             k += 1
             if k > K:
                 break
+    # ---- the library's own mappers (DictWrapper) as the user callback of read-only operations ---------
+    if not _run_dictwrap_faults(rec, spec, typed):
+        return
     rec.nt(mid >= 1)
+
+
+def _run_dictwrap_faults(rec, spec, typed):
+    """save() / to_dict_list() of a tree of DictWrapper objects with DictWrapper.serialize_mapper, maps that name
+    keys of the wrapped dicts, and the mapper raising at its k-th call: read-only, the wrapped dicts included."""
+    from vlib.build import Flavour
+
+    from nutree.common import DictWrapper
+
+    def names_of(tree):
+        out = []
+        for n in tree:
+            v = n.data._dict.get("name")
+            if v not in out:
+                out.append(v)
+        return out
+
+    runs = {
+        "save(DictWrapper.serialize_mapper,key_map+value_map on data keys)":
+            lambda tree, f: tree.save(io.StringIO(), mapper=f, key_map={"name": "n"}, value_map={"name": names_of(tree)}),
+        "save(DictWrapper.serialize_mapper)": lambda tree, f: tree.save(io.StringIO(), mapper=f),
+        "to_dict_list(DictWrapper.serialize_mapper)": lambda tree, f: tree.to_dict_list(mapper=f),
+    }
+    for name, runner in runs.items():
+        K = None
+        k = 0
+        while True:
+            tree, nodes = build(spec, flavour=Flavour("dictwrap"), typed=typed)
+            u = Uids()
+            before = (u, snapshot(tree, u, label=lambda n: repr(n.data)), index_probe(tree))
+            f = Fault(DictWrapper.serialize_mapper)
+            f.k = k if k else None
+            f.armed = True
+            rec.evals += 1
+            try:
+                runner(tree, f)
+            except Boom:
+                pass
+            f.armed = False
+            if k == 0:
+                K = f.calls
+                rec.cls("callback=library-mapper(DictWrapper)")
+            if not check_after(rec, name, tree, before, True, k, K):
+                return False
+            k += 1
+            if k > K:
+                break
+    return True
 
 
 def _run_calc_op(name, tree, nodes, data_of):
@@ -468,6 +522,23 @@ def refusal_cases(draw, tier):
     kinds = ["add", "add", "add_node", "add_node", "copy_to", "move", "move", "set_data", "rename", "del", "remove",
              "add_tree", "append_sibling", "prepend_sibling", "append_child", "remove"]
     case = draw(gen_ops.histories(typed=typed, max_ops=25 if tier == "quick" else 50, kinds=kinds, max_nodes=12, invalid_bias=True))
+    if draw(st.sampled_from([0, 0, 1])):
+        # directed tail: children leave a parent (the caller keeps the references), the parent gets new children,
+        # then one of the stale references is used as `before=` position below that same parent
+        p = draw(st.integers(-1, 11))
+        drop = ["clear"] if p < 0 else draw(st.sampled_from([["remove_children", p], ["remove_children", p], ["filter", []]]))
+        lab = st.sampled_from(gen_ops.LABELS)
+        tail = [drop, ["add", p, draw(lab), None, {}], ["add", p, draw(lab), None, {}]]
+        for _ in range(draw(st.integers(1, 3))):
+            g = ["g", draw(st.integers(0, 10))]
+            tail.append(draw(st.sampled_from([
+                ["add", p, draw(lab), g, {}],
+                ["move", draw(st.integers(0, 11)), p, g],
+                ["add_node", p, 0, draw(st.integers(0, 11)), None, g],
+                ["copy_to", draw(st.integers(0, 11)), p, True, g, False],
+            ])))
+        keep = draw(st.integers(0, min(4, len(case["ops"]))))
+        case["ops"] = case["ops"][:keep] + tail
     return case
 
 
